@@ -1,6 +1,6 @@
 (* Line-oriented entry point of the executable model: run "cmd sexp" = answer line. *)
 From Coq Require Import String Ascii List Bool Arith.
-From Wrap Require Import Base.Str Base.ListX Syntax.Ast Syntax.Sexp Syntax.Codec Syntax.Print Inst.Model Inst.Proj Pybind.Items Pybind.Gen Pybind.Render Matlab.Ids.
+From Wrap Require Import Base.Str Base.ListX Syntax.Ast Syntax.Sexp Syntax.Codec Syntax.Print Inst.Model Inst.Proj Pybind.Items Pybind.Gen Pybind.Render Matlab.Ids Matlab.Arity.
 Import ListNotations.
 Open Scope string_scope.
 
@@ -105,7 +105,7 @@ Definition e_what (w : what) : sexp :=
   match w with
   | WSlot s => SList [e_role (s_role s); Atom (s_ns s); Atom (s_cls s); Atom (s_member s);
                       Atom (nat_dec (List.length (s_args s))); Atom (s_file s); Atom (s_mfun s)]
-  | WUpcast cls => SList [Atom "upcast"; Atom cls]
+  | WUpcast cls _ => SList [Atom "upcast"; Atom cls]
   end.
 (* mlids (cfg items) -> (call sites) (cases) (routines) *)
 Definition run_mlids (x : sexp) : string :=
@@ -113,12 +113,36 @@ Definition run_mlids (x : sexp) : string :=
   | SList [cf; SList its] =>
     match d_mcfg cf, sequence (map d_item its) with
     | Some c, Some l =>
-      match module_slots c l with
+      match module_slots c l l with
       | Some slots =>
         "ok " ++ print (SList [
           SList (map (fun p => SList [Atom (nat_dec (fst p)); e_what (snd p)]) (call_sites slots));
           SList (map (fun p => SList [Atom (nat_dec (fst p)); Atom (snd p)]) (cases slots));
           SList (map (fun p => SList [Atom (fst p); e_what (snd p)]) (routines slots))])
+      | None => "err assertion"
+      end
+    | _, _ => "baddecode"
+    end
+  | _ => "badshape"
+  end.
+
+(* mltexts (cfg items) -> per id: (id name routine-text guard-line call-line) *)
+Definition run_mltexts (x : sexp) : string :=
+  match x with
+  | SList [cf; SList its] =>
+    match d_mcfg cf, sequence (map d_item its) with
+    | Some c, Some l =>
+      match module_slots c l l with
+      | Some slots =>
+        "ok " ++ print (SList (map (fun e =>
+           match what_of e with
+           | WSlot s => SList [Atom (nat_dec (id_of e)); Atom (name_of e);
+                               Atom (slot_routine (m_boost c) (name_of e) s);
+                               Atom (fst (m_site (m_module c) (id_of e) s));
+                               Atom (snd (m_site (m_module c) (id_of e) s))]
+           | WUpcast cls cpp => SList [Atom (nat_dec (id_of e)); Atom (name_of e);
+                                       Atom (upcast_routine (name_of e) cpp); Atom ""; Atom ""]
+           end) (table_from 0 slots)))
       | None => "err assertion"
       end
     | _, _ => "baddecode"
@@ -137,6 +161,7 @@ Definition run (line : string) : string :=
     else if String.eqb cmd "pybind" then run_pybind x
     else if String.eqb cmd "pybind_e2e" then run_pybind_e2e x
     else if String.eqb cmd "mlids" then run_mlids x
+    else if String.eqb cmd "mltexts" then run_mltexts x
     else if String.eqb cmd "echo" then print x
     else "badcmd"
   end.
